@@ -6,7 +6,7 @@ from .facts import call_names, call_target
 from .framework import RuleResult
 from . import origin as og
 from .rulekit import (sites, sites_containing, arg_origin, has_call, find_calls, const_of, variant_fact, truth_fact,
-                      switch_succ_with, always_reaches, is_iter_next, loc, shortfn, facts_at)
+                      switch_succ_with, always_reaches, is_iter_next, loc, shortfn, facts_at, subject_is_call)
 
 W = "teos::watcher::Watcher::"
 RSP = "teos::responder::Responder::"
@@ -836,6 +836,17 @@ def rule_OR3(ctx, tier):
         rr.fail("key-sites=%d" % len(mk), "expected 2 create_new_tower_keypair sites in main", where=m.span)
     from .rulekit import generated_keys_persisted
     generated_keys_persisted(ctx, rr, ("teosd::",), DBM + "store_tower_key", "tower")
+    # a tower that has a checkpoint boots from it: adopting the node's current best block ("fresh tower") is only for a
+    # database without a last known block. Any other way into that branch (the header of the checkpoint could not be
+    # fetched this once, ...) silently skips every block mined while the tower was down
+    fresh = sites(m, "teosd::validate_best_block_header") or sites_containing(m, "validate_best_block_header")
+    if not fresh:
+        rr.anchor_missing("validate_best_block_header in teosd::main")
+    for bb in fresh:
+        if any(f[0] == "variant" and f[2] == "None" and subject_is_call(f[1], "DBM::load_last_known_block") for f in facts_at(ctx, m, bb)):
+            rr.ok("the node's best block is adopted only when the database has no last known block")
+        else:
+            rr.fail("fresh-start-with-checkpoint", "teosd's main can adopt the node's current best block as its starting point on a path where `DBM::load_last_known_block` is not known to have answered None: a tower with a checkpoint that takes this path never sees the blocks mined while it was down, and their breaches go unanswered", where=m.line_of(bb))
     # after the bootstrap poll, main hands the chain over to the polling loop on every path that does not exit
     mcs = [x for x in ctx.pf.must_call().get(m.id, set()) if x.endswith("::monitor_chain")]
     if mcs:
